@@ -150,6 +150,119 @@ def wide_cases(rng, adversarial=False):
     return out
 
 
+# ---------------------------------------------------------------------------------------------
+# metamorphic pair "uniform translation" (Model/UsedShift.lean, command `shifted`)
+
+SHIFTS = [(16, 0), (0, 8), (32, 64), (8, 24), (64, 16)]
+
+
+def shifted_html(html, dx, dy):
+    """The same document with its page area moved by (dx, dy): page size and left / top page margins grown by
+    (dx, dy), so the content box keeps its size and every box must move by exactly (dx, dy)."""
+    import re
+
+    def rep(m):
+        w, h, mg = int(m.group(1)), int(m.group(2)), int(m.group(3))
+        return f'@page{{size:{w + dx}px {h + dy}px;margin:{mg + dy}px {mg}px {mg}px {mg + dx}px}}'
+    out, n = re.subn(r'@page\{size:(\d+)px (\d+)px;margin:(\d+)px\}', rep, html, 1)
+    if n != 1:
+        raise ValueError('no @page rule of the expected form')
+    return out
+
+
+def shift_lines(html, dx, dy):
+    """Render `html` and its translated twin -> [(line, stats)] one per page, or a string when the two
+    renderings do not have the same number of pages."""
+    from harness import docs
+    first = docs.render(html)
+    second = docs.render(shifted_html(html, dx, dy))
+    if len(first.pages) != len(second.pages):
+        return f'pages {len(first.pages)} {len(second.pages)}'
+    out = []
+    for (line_a, stats), (line_b, _) in zip(page_lines(first), page_lines(second)):
+        tree_a, tree_b = sx.loads_line(line_a)[5], sx.loads_line(line_b)[5]
+        out.append((sx.line('shifted', EPS, dx, dy, tree_a, tree_b), stats))
+    return out
+
+
+def position_doc(rng):
+    """A small document made of the constructs whose placement reads absolute coordinates: empty and zero-height
+    floats, floats on both sides, clearance, absolutely / fixed / relatively positioned boxes with auto and
+    explicit offsets, nested in blocks with margins and paddings (float.py avoid_collisions, get_clearance,
+    absolute.py, block.py relative_positioning)."""
+    def px(*choices):
+        return f'{rng.choice(choices)}px'
+
+    def item(depth):
+        r = rng.random()
+        side = rng.choice(['left', 'right'])
+        if r < .2:
+            return (f'<div style="float:{side};width:{px(0, 10, 30)};height:{px(0, 0, 8)};'
+                    f'margin:{px(0, 0, 3)}"></div>')
+        if r < .35:
+            return f'<div style="float:{side};width:{px(20, 40)}">f{rng.randrange(9)}</div>'
+        if r < .5:
+            offs = ''.join(f'{k}:{px(0, 4, 12)};' for k in ('left', 'top', 'right', 'bottom') if rng.random() < .3)
+            return (f'<div style="position:{rng.choice(["absolute", "absolute", "fixed"])};{offs}'
+                    f'width:{px(10, 25)};height:{px(0, 5)}"></div>')
+        if r < .6:
+            return f'<div style="position:relative;left:{px(0, 3, -2)};top:{px(0, 5)}">r{rng.randrange(9)}</div>'
+        if r < .7:
+            return f'<div style="clear:{rng.choice(["both", "left", "right"])}">c{rng.randrange(9)}</div>'
+        if r < .85 or depth >= 2:
+            return f'<p>w{rng.randrange(99)} w{rng.randrange(99)} w{rng.randrange(99)}</p>'
+        inner = ''.join(item(depth + 1) for _ in range(rng.choice([1, 2, 3])))
+        rel = 'position:relative;' if rng.random() < .3 else ''
+        return f'<div style="{rel}margin:{px(0, 4)} {px(0, 6)};padding:{px(0, 0, 3)}">{inner}</div>'
+    body = ''.join(item(0) for _ in range(rng.choice([2, 3, 4, 6])))
+    width, height, margin = rng.choice([100, 160]), rng.choice([60, 120, 300]), rng.choice([0, 2, 5])
+    html = (f'<html><head><style>@page{{size:{width}px {height}px;margin:{margin}px}}'
+            f'html,body{{margin:0}}body{{font-size:10px;line-height:10px}}p{{margin:0}}</style></head>'
+            f'<body>{body}</body></html>')
+    return {'html': html, 'features': ['position-probe']}
+
+
+def shift_cases(rng, adversarial=False, probe=False):
+    """One document (wide grammar, or `position_doc` when `probe`) rendered twice
+    -> [(line, impl, meta, tags, stats)] one per page."""
+    from harness import docs, widegen
+    doc = position_doc(rng) if probe else widegen.gen(rng, adversarial=adversarial)
+    html = doc['html']
+    rtl = rng.random() < .35
+    if rtl:
+        html = html.replace('body{font-size', 'body{direction:rtl;font-size', 1)
+    dx, dy = rng.choice(SHIFTS)
+    meta = {'html': html, 'dx': dx, 'dy': dy, 'rtl': rtl, 'features': doc['features']}
+    try:
+        with docs.time_limit(30):
+            pages = shift_lines(html, dx, dy)
+    except Exception as exc:  # noqa: BLE001
+        return [(None, None, dict(meta, error=type(exc).__name__), ['render-error'], {})]
+    tags = list(doc['features']) + ['rtl' if rtl else 'ltr', f'shift{dx}x{dy}']
+    if isinstance(pages, str):
+        return [(sx.line('shifted', EPS, dx, dy, [], []), pages, dict(meta, page_index=0), tags, {'flow': 0})]
+    return [(line, 'ok', dict(meta, page_index=index), tags, stats) for index, (line, stats) in enumerate(pages)]
+
+
+def explain_shift(line, impl, model_out):
+    """Human-readable description of a translation failure."""
+    parts = sx.loads_line(line)
+    dx, dy = parts[2], parts[3]
+    if impl.startswith('pages'):
+        _, a, b = impl.split()
+        return (f'metamorphic pair "uniform translation": moving the page area by ({dx}, {dy}) changes the number of '
+                f'pages from {a} to {b}')
+    if model_out == 'bad shape':
+        return (f'metamorphic pair "uniform translation": moving the page area by ({dx}, {dy}) changes the box tree '
+                f'of the page ({len(flat(parts[4]))} boxes, then {len(flat(parts[5]))})')
+    index = int(model_out.split()[2])
+    a, b = flat(parts[4])[index], flat(parts[5])[index]
+    moved = [(name, str(F(x)), str(F(y))) for name, x, y in zip(FIELDS, a[:16], b[:16]) if F(x) != F(y)]
+    return (f'metamorphic pair "uniform translation": the page area moved by ({dx}, {dy}); box #{index} (kind {a[24]}) '
+            f'went from ({a[0]}, {a[1]}) to ({b[0]}, {b[1]}) instead of ({F(a[0]) + F(dx)}, {F(a[1]) + F(dy)}); '
+            f'fields that differ (name, before, after): {moved}')
+
+
 def page_info(page):
     """Facts about a page used to recognise the known deviation classes."""
     from weasyprint.formatting_structure import boxes
